@@ -24,7 +24,7 @@ func init() {
 				"contain a slash. R3: the ReverseProxy is built with Rewrite (which strips Forwarded / X-Forwarded-*) and without " +
 				"Director, and Rewrite only calls SetURL(target) and sets Host and User-Agent.",
 			NotCovered: "string predicates other than segment equality; behaviour of net/http and httputil themselves (hop-by-hop header handling).",
-			Rules: map[string]string{"C19-RC": "class rules (error chains, shadowed results, character classes, crossed arguments, pool constructors, array pools, loop completeness, loop-carried buffers, replacing setters, complete clones, Grow arithmetic, pooled-buffer escape, sorted searches, fresh decode targets, per-iteration objects, whole-message copies, codec guards) over the packages this property rests on", "C19-R5": "websvc.New: the linked-IP listeners' handler is the proxy gate itself, built for the configured target (nothing is routed around it)",
+			Rules: map[string]string{"C19-R6": "the proxy never lets a client switch protocols: the Upgrade header of the inbound request is deleted before the request is handed to httputil.ReverseProxy (which would relay a 101 of the backend and then copy the connection's bytes both ways unseen, past the path gate and the header rewriting)", "C19-RC": "class rules (error chains, shadowed results, character classes, crossed arguments, pool constructors, array pools, loop completeness, loop-carried buffers, replacing setters, complete clones, Grow arithmetic, pooled-buffer escape, sorted searches, fresh decode targets, per-iteration objects, whole-message copies, codec guards) over the packages this property rests on", "C19-R5": "websvc.New: the linked-IP listeners' handler is the proxy gate itself, built for the configured target (nothing is routed around it)",
 				"C19-R1": "ServeHTTP gate and header effects", "C19-R2": "shouldProxy decision table incl. dot segments and split limit",
 				"C19-R3": "ReverseProxy literal: Rewrite, not Director; Rewrite's effects",
 				"C19-R4": "the client-IP header is (re-)set on the outgoing request inside Rewrite, i.e. after httputil has removed the hop-by-hop headers that the client's Connection header names",
@@ -33,6 +33,9 @@ func init() {
 }
 
 func runC19(c *an.Ctx) {
+	// ---- R6: no protocol switch through the proxy
+	c.Floor("C19-R6", 1)
+	c19NoUpgrade(c, "C19-R6")
 	classSweep(c, "C19")
 	c19Servers(c)
 	c.Floor("C19-R1", 1)
@@ -393,4 +396,47 @@ func c19Servers(c *an.Ctx) {
 			"the server's Handler is the gate itself",
 			fmt.Sprintf("the gate is not the listener's handler as such (%d direct uses; %s): requests can be routed around it or to the main service", direct, other))
 	}
+}
+
+// c19NoUpgrade: httputil.ReverseProxy supports protocol switching: it puts
+// "Connection: Upgrade" and the Upgrade header back on the outgoing request
+// and, when the backend answers 101, hijacks the client connection and copies
+// bytes in both directions without looking at them.  From then on any method,
+// path and X-Connecting-IP reach the backend.  In linkedIPProxy.ServeHTTP a
+// deletion of the Upgrade header of the inbound request dominates the call of
+// the reverse proxy.
+func c19NoUpgrade(c *an.Ctx, rule string) {
+	k := "websvc.(*linkedIPProxy).ServeHTTP"
+	fn := c.Prog.Fn(k)
+	key := k + " deletes the Upgrade header before proxying"
+	if fn == nil {
+		c.Und(rule, key, token.NoPos, "anchor not found")
+		return
+	}
+	c.Analysed(k)
+	var proxy ssa.CallInstruction
+	var dels []ssa.CallInstruction
+	for _, call := range an.Calls(fn) {
+		n := an.CalleeName(call)
+		switch {
+		case strings.HasSuffix(n, "httputil.ReverseProxy).ServeHTTP"):
+			proxy = call
+		case n == "(net/http.Header).Del" && len(call.Common().Args) == 2:
+			if k, ok := call.Common().Args[1].(*ssa.Const); ok && k.Value != nil && k.Value.Kind() == constant.String && strings.EqualFold(constant.StringVal(k.Value), "Upgrade") {
+				dels = append(dels, call)
+			}
+		}
+	}
+	if proxy == nil {
+		c.Und(rule, key, fn.Pos(), "no call of the reverse proxy found")
+		return
+	}
+	ok := false
+	for _, d := range dels {
+		if an.Dominates(d, proxy) {
+			ok = true
+		}
+	}
+	c.Check(ok, rule, key, proxy.Pos(), "Header.Del(\"Upgrade\") dominates the proxy call",
+		"the inbound Upgrade header is still there when the request reaches httputil.ReverseProxy at "+c.Pos(proxy.Pos())+": with a backend (or a hop before it) that answers 101, the client gets a raw connection to the backend, on which any method, any path and a forged X-Connecting-IP pass")
 }
